@@ -221,7 +221,7 @@ def checkWith {σ : Type} (sc : Driver.Script) (m0 : σ)
   let mut ps : PState := {}
   for (i, cmd, resp) in groupOps sc.lines do
     res := { res with ops := res.ops + 1 }
-    if resp.any fun l => l.kind == '?' && (l.toks.head? == some "setup-failed" || l.toks.head? == some "barrier-timeout") then
+    if resp.any fun l => l.kind == '?' && (l.toks.head? == some "setup-failed" || l.toks.head? == some "barrier-timeout" || l.toks.head? == some "overflow") then
       res := { res with envBad := res.envBad <|> some (i, s!"harness environment: {resp.map (·.raw)}") }
       break
     if resp.any fun l => l.kind == '<' && l.toks.head? == some "panic" then
